@@ -45,10 +45,21 @@ fn apply_fixes(src: &str, fixes: &[Autofix]) -> String {
     fixes.sort_by_key(|b| std::cmp::Reverse(b.position.start_offset));
 
     let mut result = src.to_owned();
+    // The start of the fix applied last, i.e. where untouched text ends.
+    let mut applied_start = src.len();
     for fix in fixes {
         let start = fix.position.start_offset;
         let end = fix.position.end_offset;
+        if end > applied_start {
+            // This fix overlaps one that has already been applied (for
+            // example two lints that want to delete the same text), so
+            // its offsets no longer describe `result`. Skip it: if it
+            // is still relevant it is offered again on the next run.
+            continue;
+        }
+
         result = format!("{}{}{}", &result[..start], fix.new_text, &result[end..]);
+        applied_start = start;
     }
     result
 }
